@@ -7,8 +7,9 @@
   parameter `Fs` (what exists, what a file contains) — OS behaviour is not modelled further.
 -/
 import Avra.Lemmas.Iter
+import Avra.Lemmas.Paste
 namespace Avra.Props.C11
-open Avra Avra.Model Avra.Lemmas.Iter
+open Avra Avra.Model Avra.Lemmas.Iter Avra.Lemmas.Paste
 
 /-! ### where a file is looked for (independent statement) -/
 
@@ -225,6 +226,46 @@ theorem exit_step (inc : IncludeFn) (cur : Str) (incs : List Str) (st : PState) 
 theorem exit_ends_this_file (inc : IncludeFn) (cur : Str) (s : PState × List Str) (ls : List (Nat × Str)) :
     runFrom inc cur s .endFile ls = .ok s := by
   rw [runFrom_step]; simp [skipStep]
+
+/-! ### pasting -/
+
+/-- **Pasted text.**  When the loop works its way through the lines `ls` completely (no
+    conditional or macro definition is left open at their end, no `.exit`), then those lines
+    followed by more text `post` behave as: the state `ls` leaves, then `post` with nothing
+    pending.  (`Lemmas.Paste.run_append`, for any include handler and any current file.) -/
+theorem pasted_lines (inc : IncludeFn) (cur : Str) (s s' : PState × List Str) (ls post : List (Nat × Str))
+    (h : Completes inc cur s .newLine ls s') :
+    runFrom inc cur s .newLine (ls ++ post) = runFrom inc cur s' .newLine post :=
+  run_append inc cur s .newLine ls s' h post
+
+/-- **Included text.**  Under the same condition on the file's lines, the line
+    `.include "path"` followed by `post` behaves as: the state the file's lines leave (run in the
+    FILE's context: its path as current file, its own directory searched), then `post` with
+    nothing pending, in the includer's context, with the include set the file hands back.
+    This is `pasted_lines` up to exactly what the property says differs between the two: where
+    relative `.includepath`s and nested `.include`s of the file resolve, and the line numbers
+    (the file's lines are numbered from 1 in their own file).  A file whose lines do NOT complete
+    (an `.if` or `.macro` left open) is the recorded finding: the skip ends with the file. -/
+theorem included_lines (fs : Fs) (d : Nat) (cur : Str) (incs : List Str) (st : PState) (idx : Nat) (text path : Str)
+    (post : List (Nat × Str)) (src : Str) (s' : PState × List Str)
+    (hp : parseLine text = (some (.directiveLine none .include (.opList [.s path])), false))
+    (hread : fs.read (resolve fs path incs) = some src)
+    (hC : Completes (parseFileAt fs d) (resolve fs path incs) (st, insideSet (resolve fs path incs) incs) .newLine
+            (numbered (lines src)) s') :
+    runFrom (parseFileAt fs (d + 1)) cur (st, incs) .newLine ((idx, text) :: post) =
+      runFrom (parseFileAt fs (d + 1)) cur (s'.1, writeBack (ownDir (resolve fs path incs) incs) s'.2 incs) .newLine post := by
+  rw [runFrom_step]
+  have hfile : parseFileAt fs (d + 1) path incs st =
+      .ok (s'.1, writeBack (ownDir (resolve fs path incs) incs) s'.2 incs) := by
+    rw [file_step, hread]
+    simp only [run_alone _ _ _ _ _ _ hC]
+  have hstep : lineStep (parseFileAt fs (d + 1)) cur incs st idx text false =
+      .ok (s'.1, writeBack (ownDir (resolve fs path incs) incs) s'.2 incs, .newLine) := by
+    unfold lineStep
+    simp only [hp]
+    have : ¬ (Directive.include = Directive.else ∨ Directive.include = Directive.elif ∧ (!false) = true) := by decide
+    rw [if_neg this, include_step, hfile]
+  simp only [skipStep, hstep]
 
 /-! non-vacuity: a file found through a directory of the include set; one found nowhere -/
 example : resolve { cwd := ['/'], files := [(['/', 'd', '/', 'x'], [])], dirs := [['/', 'd']] } ['x'] [['/', 'd']] = ['/', 'd', '/', 'x'] := by decide
